@@ -43,7 +43,7 @@ def prepare_batch(work, tools, seed, n_designs, race, focus=""):
             out = p.stdout.decode("utf-8", "replace")
             if p.returncode == 0:
                 return name, "ok", ""
-            if re.search(r"\.go:\d+:\d+: ", out):
+            if re.search(r"\.go:\d+:\d+: ", out) and "no such file or directory" not in out:
                 return name, "uncompilable", out[-1200:]  # a compiler diagnostic: what goa generated does not type-check
             time.sleep(1 + attempt)  # anything else (a killed compiler, a cache hiccup under load) is not about the design
         return name, "buildtrouble", out[-1200:]
@@ -103,6 +103,8 @@ def prepare_batch(work, tools, seed, n_designs, race, focus=""):
         if p.returncode == 0:
             break
         bad = set(re.findall(r"\b(d\d+)/(?:gen|glue)/", out))
+        if "no such file or directory" in out:
+            bad = set()  # the build cache or the scratch directory lost a file: nothing a design did
         if not bad:
             if attempt == 0:
                 log("  batch build failed outside generated code, retrying once:\n" + out[-1500:])
